@@ -76,11 +76,16 @@ inductive SetVal
   | many (vs : List SetVal)
 deriving Repr
 
-/-- Decode arguments: `()`; `(len, inner)` for a `Vec`; one per field for a struct. `Option`,
-`Box`, arrays (`(arg,)` form, of which `()` is an instance) and `Rest` pass theirs through. -/
+/-- Decode arguments: `()`; `(len, inner)` for a `Vec` (every element gets `inner`); `each` = one
+argument per element of a `Vec` (the `[TA; N]`, `&[TA; N]`, `&mut [TA; N]` and `(I,)` forms of
+`impls/vec.rs`); `arrEach` = one argument per element of an array (the `[DArg; N]` form of
+`impls/array.rs`); one per field for a struct. `Option`, `Box`, arrays (`(arg,)` form, of which `()`
+is an instance) and `Rest` pass theirs through. -/
 inductive DecodeArg
   | unit
   | len (n : Nat) (inner : DecodeArg)
+  | each (as : List DecodeArg)
+  | arrEach (as : List DecodeArg)
   | fields (as : List DecodeArg)
 deriving Repr
 
@@ -157,6 +162,18 @@ def iterRest (f : List Acct → Except E (SetVal × List Acct)) : Nat → List A
       | .error e => .error e
       | .ok (vs, r'') => .ok (v :: vs, r'')
 
+/-- sequential decodes of elements of one shape, each with its own argument -/
+def iterEach (f : DecodeArg → List Acct → Except E (SetVal × List Acct)) :
+    List DecodeArg → List Acct → Except E (List SetVal × List Acct)
+  | [], accts => .ok ([], accts)
+  | a :: as, accts =>
+    match f a accts with
+    | .error e => .error e
+    | .ok (v, r) =>
+      match iterEach f as r with
+      | .error e => .error e
+      | .ok (vs, r') => .ok (v :: vs, r')
+
 mutual
 /-- `AccountSetDecode::decode_accounts`: the decoded set and the accounts left over. -/
 def decode (pid : Key) : SetShape → DecodeArg → List Acct → Except E (SetVal × List Acct)
@@ -178,11 +195,23 @@ def decode (pid : Key) : SetShape → DecodeArg → List Acct → Except E (SetV
       match iterN (decode pid s inner) n accts with
       | .error e => .error e
       | .ok (vs, r) => .ok (.many vs, r)
+    | .each as =>
+      match iterEach (decode pid s) as accts with
+      | .error e => .error e
+      | .ok (vs, r) => .ok (.many vs, r)
     | _ => .error .badArg
   | .arr n s, arg, accts =>
-    match iterN (decode pid s arg) n accts with
-    | .error e => .error e
-    | .ok (vs, r) => .ok (.many vs, r)
+    match arg with
+    | .arrEach as =>
+      if as.length = n then
+        match iterEach (decode pid s) as accts with
+        | .error e => .error e
+        | .ok (vs, r) => .ok (.many vs, r)
+      else .error .badArg
+    | _ =>
+      match iterN (decode pid s arg) n accts with
+      | .error e => .error e
+      | .ok (vs, r) => .ok (.many vs, r)
   | .boxed s, arg, accts => decode pid s arg accts
   | .struct fs, arg, accts =>
     match arg with
@@ -459,6 +488,8 @@ def argTyped : SetShape → DecodeArg → Bool
   | .single .., .unit => true
   | .opt s, a => argTyped s a
   | .vec s, .len _ inner => argTyped s inner
+  | .vec s, .each as => as.all (argTyped s)
+  | .arr n s, .arrEach as => as.length == n && as.all (argTyped s)
   | .arr _ s, a => argTyped s a
   | .rest s, a => argTyped s a
   | .boxed s, a => argTyped s a
@@ -476,6 +507,12 @@ def headNotPid (pid : Key) (ms : List Meta) : Bool :=
   | [] => false
   | m :: _ => m.key != pid
 
+/-- pointwise over an argument list and a value list of the same length -/
+def all2 (f : DecodeArg → ClientVal → Bool) : List DecodeArg → List ClientVal → Bool
+  | [], [] => true
+  | a :: as, v :: vs => f a v && all2 f as vs
+  | _, _ => false
+
 mutual
 /-- `fits pid s arg v`: `v` has type `s`, `arg` is the decode argument describing `v` (vector
 lengths), and the side conditions of the round trip hold:
@@ -488,6 +525,8 @@ def fits (pid : Key) : SetShape → DecodeArg → ClientVal → Bool
   | .opt _, _, .absent => true
   | .opt s, a, .present v => fits pid s a v && headNotPid pid (clientMetas pid s v)
   | .vec s, .len n inner, .many vs => vs.length == n && restFree s && vs.all (fits pid s inner)
+  | .vec s, .each as, .many vs => restFree s && all2 (fits pid s) as vs
+  | .arr n s, .arrEach as, .many vs => vs.length == n && restFree s && all2 (fits pid s) as vs
   | .arr n s, a, .many vs => vs.length == n && restFree s && vs.all (fits pid s a)
   | .rest s, a, .many vs => restFree s && vs.all (fun v => fits pid s a v && !(clientMetas pid s v).isEmpty)
   | .boxed s, a, v => fits pid s a v
@@ -598,38 +637,80 @@ mutual
 def serArg : DecodeArg → List Nat
   | .unit => []
   | .len n inner => leN 8 n ++ serArg inner
+  | .each as => serArgs as
+  | .arrEach as => serArgs as
   | .fields as => serArgs as
 def serArgs : List DecodeArg → List Nat
   | [] => []
   | a :: as => serArg a ++ serArgs as
 end
 
-mutual
-/-- borsh deserialization of the decode argument of a shape -/
-def deArg : SetShape → List Nat → Option (DecodeArg × List Nat)
-  | .single .., bs => some (.unit, bs)
-  | .opt s, bs => deArg s bs
-  | .vec s, bs =>
-    if bs.length < 8 then none
-    else match deArg s (bs.drop 8) with
-      | none => none
-      | some (inner, r) => some (.len (rdLE (bs.take 8)) inner, r)
-  | .arr _ s, bs => deArg s bs
-  | .rest s, bs => deArg s bs
-  | .boxed s, bs => deArg s bs
-  | .struct fs, bs =>
-    match deArgFields fs bs with
-    | none => none
-    | some (as, r) => some (.fields as, r)
-def deArgFields : List SetShape → List Nat → Option (List DecodeArg × List Nat)
-  | [], bs => some ([], bs)
-  | s :: fs, bs =>
-    match deArg s bs with
+/-- The Rust type of a decode argument (chosen by the set's author with `#[decode(arg = …)]`):
+`()`, `(usize, T)`, `[T; N]` for a `Vec` / for an array, a struct of arguments. -/
+inductive ArgTy
+  | unit
+  | len (t : ArgTy)
+  | each (n : Nat) (t : ArgTy)
+  | arrEach (n : Nat) (t : ArgTy)
+  | fields (ts : List ArgTy)
+deriving Repr
+
+/-- `n` consecutive values (borsh of `[T; N]`: no length prefix) -/
+def deRep (f : List Nat → Option (DecodeArg × List Nat)) : Nat → List Nat → Option (List DecodeArg × List Nat)
+  | 0, bs => some ([], bs)
+  | n + 1, bs =>
+    match f bs with
     | none => none
     | some (a, r) =>
-      match deArgFields fs r with
+      match deRep f n r with
       | none => none
       | some (as, r') => some (a :: as, r')
+
+mutual
+/-- borsh deserialization of a decode argument of the given type -/
+def deArg : ArgTy → List Nat → Option (DecodeArg × List Nat)
+  | .unit, bs => some (.unit, bs)
+  | .len t, bs =>
+    if bs.length < 8 then none
+    else match deArg t (bs.drop 8) with
+      | none => none
+      | some (inner, r) => some (.len (rdLE (bs.take 8)) inner, r)
+  | .each n t, bs =>
+    match deRep (deArg t) n bs with
+    | none => none
+    | some (as, r) => some (.each as, r)
+  | .arrEach n t, bs =>
+    match deRep (deArg t) n bs with
+    | none => none
+    | some (as, r) => some (.arrEach as, r)
+  | .fields ts, bs =>
+    match deArgFields ts bs with
+    | none => none
+    | some (as, r) => some (.fields as, r)
+def deArgFields : List ArgTy → List Nat → Option (List DecodeArg × List Nat)
+  | [], bs => some ([], bs)
+  | t :: ts, bs =>
+    match deArg t bs with
+    | none => none
+    | some (a, r) =>
+      match deArgFields ts r with
+      | none => none
+      | some (as, r') => some (a :: as, r')
+end
+
+mutual
+/-- the argument value has the argument type -/
+def hasTy : ArgTy → DecodeArg → Bool
+  | .unit, .unit => true
+  | .len t, .len _ inner => hasTy t inner
+  | .each n t, .each as => as.length == n && as.all (hasTy t)
+  | .arrEach n t, .arrEach as => as.length == n && as.all (hasTy t)
+  | .fields ts, .fields as => hasTyFields ts as
+  | _, _ => false
+def hasTyFields : List ArgTy → List DecodeArg → Bool
+  | [], [] => true
+  | t :: ts, a :: as => hasTy t a && hasTyFields ts as
+  | _, _ => false
 end
 
 mutual
@@ -637,6 +718,8 @@ mutual
 def argInRange : DecodeArg → Bool
   | .unit => true
   | .len n inner => decide (n < 256 ^ 8) && argInRange inner
+  | .each as => argsInRange as
+  | .arrEach as => argsInRange as
   | .fields as => argsInRange as
 def argsInRange : List DecodeArg → Bool
   | [] => true
@@ -700,13 +783,13 @@ deriving Repr
 
 /-- The program's entry path for the harness instruction of a set: dispatch, borsh-decode
 `{ d: decode arg, r: run args }`, decode the accounts, validate them. -/
-def entry (table : List (List Nat)) (idx : Nat) (pid : Key) (s : SetShape) (data : List Nat)
-    (accts : List Acct) : Except EntryErr RunOut :=
+def entry (table : List (List Nat)) (idx : Nat) (pid : Key) (s : SetShape) (ty : ArgTy)
+    (data : List Nat) (accts : List Acct) : Except EntryErr RunOut :=
   match dispatch table data with
   | none => .error .badData
   | some (i, payload) =>
     if i ≠ idx then .error .badData
-    else match deArg s payload with
+    else match deArg ty payload with
       | none => .error .badData
       | some (arg, r) =>
         match deRun r with
